@@ -91,6 +91,37 @@ fn max_bootstrap_expansion(class: &duke::tree::class::ClassFile) -> u64 {
 	max
 }
 
+/// what an accepted ClassFile shows of the numbers of the file (coq/C16/Run.v cskel): decoded class access, number of
+/// interfaces, decoded InnerClasses flags, Module (decoded flags, number of requires / exports / opens), decoded
+/// field accesses; per method decoded access, Code as (max_stack, max_locals, exception table length, line numbers),
+/// the number of Exceptions entries and the decoded MethodParameters flags.  None: a Code without max_stack / max_locals
+fn class_skeleton(c: &duke::tree::class::ClassFile) -> Option<String> {
+	let n = |x: usize| format!("{x}");
+	let mut methods = Vec::new();
+	for m in &c.methods {
+		let code = match &m.code {
+			None => None,
+			Some(code) => {
+				let (ms, ml) = (code.max_stack?, code.max_locals?);
+				let lines = gnums(code.line_numbers.iter().flatten().map(|(_, l)| *l as u64));
+				Some(format!("({ms}, {ml}, {}, {lines})", code.exception_table.len()))
+			}
+		};
+		let params = m.method_parameters.as_ref().map(|v| gnums(v.iter().map(|p| u16::from(p.flags) as u64)));
+		methods.push(format!("(mkMS {} {} {} {})", u16::from(m.access), gopt(code), gopt(m.exceptions.as_ref().map(|v| n(v.len()))), gopt(params)));
+	}
+	let inner = c.inner_classes.as_ref().map(|v| gnums(v.iter().map(|i| u16::from(i.flags) as u64)));
+	let module = c.module.as_ref().map(|m| format!("({}, {}, {}, {})", u16::from(m.flags), m.requires.len(), m.exports.len(), m.opens.len()));
+	let fields = gnums(c.fields.iter().map(|f| u16::from(f.access) as u64));
+	Some(format!("(mkSK {} {} {} {} {fields} {})", u16::from(c.access), c.interfaces.len(), gopt(inner), gopt(module), glist(methods)))
+}
+/// the bits each flags type of the tree keeps: u16::from(T::from(0xFFFF)) (coq/C16/Run.v masks)
+fn flag_masks() -> String {
+	use duke::tree::{class::{ClassAccess, InnerClassFlags}, field::FieldAccess, method::{MethodAccess, ParameterFlags}, module::ModuleFlags};
+	format!("(mkMK {} {} {} {} {} {})", u16::from(ClassAccess::from(0xFFFFu16)), u16::from(InnerClassFlags::from(0xFFFFu16)), u16::from(ModuleFlags::from(0xFFFFu16)),
+		u16::from(FieldAccess::from(0xFFFFu16)), u16::from(MethodAccess::from(0xFFFFu16)), u16::from(ParameterFlags::from(0xFFFFu16)))
+}
+
 /// one input through its parser, inside the child
 fn run_one(kind: u8, bytes: &[u8], scratch: &Path) -> (Res, Option<Res>, u64) {
 	let (a, b) = run_one_(kind, bytes, scratch);
@@ -549,7 +580,7 @@ pub fn run(ctx: &Ctx) -> anyhow::Result<Report> {
 	let _ = std::fs::remove_dir_all(&dir);
 	anyhow::ensure!(outs.len() == inputs.len(), "sandbox returned {} outcomes for {} inputs", outs.len(), inputs.len());
 
-	r.rule = format!("every input runs in a child process of the harness under ulimit (address space {} MiB, stack {} MiB, CPU {} s per batch, {} s CPU per input) with a counting allocator; outcome ok/err is fine, panic / signal / timeout / heap above 32 MiB + 512 x input size is a violation, and so is an accepted class in which one ldc / invokedynamic instruction carries more (nested) bootstrap arguments than the limit the reader documents (MAX_BOOTSTRAP_ARGUMENTS_EXPANDED as read from the source under test, 65536) (each re-run alone before it counts). Inputs: {} valid classes (javac 17 output for --release 8/17 incl. records, sealed, module-info, lambdas, switches, annotations, type annotations; /repo fixtures), every structural field found by an independent walker set to boundary values, truncation at every byte, random byte edits, hand-assembled hostile shapes (truncated instructions, switch ranges, stack-map offset sums, local-variable ranges, exception ranges, code_length, attribute_length up to 4 GiB, self-referential / deep / shared bootstrap arguments, one instruction with 1..255 top-level bootstrap arguments over shared DAGs of exact sizes (each far below or just under the budget, sums 65535 / 65536 / 65537 and far above, through invokedynamic and through ldc), self-referential pool entries, deeply nested element values (arrays, annotations, alternating), huge counts, duplicates, 65535-byte code, invokeinterface descriptors around the writer's u8 argument size, every count of the format at 255 / 256 / 257 / 65535 with all counted items present, element values of the integer kinds at the boundaries of the narrower types, every byte string of length <= 2 (and the 3-byte ones behind E0..EF) over 19 bytes where modified UTF-8 changes its mind as a class name), HOSTILE STRINGS: {} variants of compact valid classes in which every Utf8 that is not an attribute name carries an unpaired high / low surrogate, an embedded NUL, a leading 2- / 3- / 6-byte character, 700 extra bytes, 300 `[` or a run of 300 of one structural character, and whose class name / member names / member descriptors are filled up to 65535 bytes, are BASES too (every field mutation, truncation and byte edit is crossed with them), one Utf8 at a time replaced by / extended to twelve 65535-byte strings (runs of `[` `(` `;` `<` `a/`, surrogates, NUL ...) and made invalid for its role next to a surrogate; every accepted or refused class additionally goes through read_class_multi with the () visitor, a visitor without interests, one that declines the class, one without interest in fields and methods that declines record components, one that declines the code of every method, and twice into Vec<ClassFile>; text inputs for tiny v2 / tiny diff / Enigma / nests (fixtures mutated, random lines, invalid UTF-8, huge indentation, very long lines, deep CLASS nesting; every cell of the valid fixtures replaced one at a time by 37 hostile cells (names that start with multi-byte characters, empty, <init>, array names, separators, Unicode digits and line separators, 3000 letters); 100000-character runs of each of 17 structural characters as class name, member name and descriptor; a backslash directly before 2-, 3-, 4-byte characters and combining marks, at the end of the line, doubled, before TAB, multi-byte characters next to every structural character, in every comment position / field; every string of length <= 3 over (backslash, n, e-acute, euro, U+10400, TAB, c) as comment cell) and descriptor strings (random, runs of each structural character of length 255..300000 inside the frames of field / method / object / array descriptors, 34 short valid and invalid descriptors with a surrogate / NUL / 6-byte character at every position); accepted classes go through write_class and the written bytes are read again. Whole-class correspondence: class files of at most 4096 bytes (all the javac corpus classes of that size, every class of the case-* streams, even samples of the field-mutation / truncation / random-edit / hostile-string / mutf8 / targeted / exact-count streams under a byte budget of 2.6 MB per quick run, 12 MB per thorough run) are cases CClassV for the model of the WHOLE class reader (coq/C16/ModelCls*.v): exact outcome class ok / err / panic of duke::read_class, and whether read_class_multi accepted the same bytes with the () visitor, a visitor without interests that declines every member, one that declines the code of every method, one with interest in Record only and none in fields / methods, and one that declines the class (the model runs under the corresponding visitor description). Whole-file correspondence: every text input of at most 4096 bytes (all targeted shapes and fixtures, the other streams sampled down to 5000 per quick run) is also a case CText for the model of the WHOLE parser (tiny v2 with 1 / 2 / 3 namespaces, tiny diff, Enigma, nests; coq/C16/ModelText.v, UTF-8 bytes), compared by exact outcome class ok / err / panic; element-value nesting is compared at 18 depths x 8 patterns against the three-function model whose increments are read from the source. Non-trivial: the parser accepted the input, or the input is a structured mutation of a valid file (reaches past the header). Distinct by input bytes.", LIMITS.as_kib / 1024, LIMITS.stack_kib / 1024, LIMITS.cpu_s, INPUT_CPU_LIMIT_MS / 1000, first_hostile, bases.len() - first_hostile);
+	r.rule = format!("every input runs in a child process of the harness under ulimit (address space {} MiB, stack {} MiB, CPU {} s per batch, {} s CPU per input) with a counting allocator; outcome ok/err is fine, panic / signal / timeout / heap above 32 MiB + 512 x input size is a violation, and so is an accepted class in which one ldc / invokedynamic instruction carries more (nested) bootstrap arguments than the limit the reader documents (MAX_BOOTSTRAP_ARGUMENTS_EXPANDED as read from the source under test, 65536) (each re-run alone before it counts). Inputs: {} valid classes (javac 17 output for --release 8/17 incl. records, sealed, module-info, lambdas, switches, annotations, type annotations; /repo fixtures), every structural field found by an independent walker set to boundary values, truncation at every byte, random byte edits, hand-assembled hostile shapes (truncated instructions, switch ranges, stack-map offset sums, local-variable ranges, exception ranges, code_length, attribute_length up to 4 GiB, self-referential / deep / shared bootstrap arguments, one instruction with 1..255 top-level bootstrap arguments over shared DAGs of exact sizes (each far below or just under the budget, sums 65535 / 65536 / 65537 and far above, through invokedynamic and through ldc), self-referential pool entries, deeply nested element values (arrays, annotations, alternating), huge counts, duplicates, 65535-byte code, invokeinterface descriptors around the writer's u8 argument size, every count of the format at 255 / 256 / 257 / 65535 with all counted items present, element values of the integer kinds at the boundaries of the narrower types, every byte string of length <= 2 (and the 3-byte ones behind E0..EF) over 19 bytes where modified UTF-8 changes its mind as a class name), HOSTILE STRINGS: {} variants of compact valid classes in which every Utf8 that is not an attribute name carries an unpaired high / low surrogate, an embedded NUL, a leading 2- / 3- / 6-byte character, 700 extra bytes, 300 `[` or a run of 300 of one structural character, and whose class name / member names / member descriptors are filled up to 65535 bytes, are BASES too (every field mutation, truncation and byte edit is crossed with them), one Utf8 at a time replaced by / extended to twelve 65535-byte strings (runs of `[` `(` `;` `<` `a/`, surrogates, NUL ...) and made invalid for its role next to a surrogate; every accepted or refused class additionally goes through read_class_multi with the () visitor, a visitor without interests, one that declines the class, one without interest in fields and methods that declines record components, one that declines the code of every method, and twice into Vec<ClassFile>; text inputs for tiny v2 / tiny diff / Enigma / nests (fixtures mutated, random lines, invalid UTF-8, huge indentation, very long lines, deep CLASS nesting; every cell of the valid fixtures replaced one at a time by 37 hostile cells (names that start with multi-byte characters, empty, <init>, array names, separators, Unicode digits and line separators, 3000 letters); 100000-character runs of each of 17 structural characters as class name, member name and descriptor; a backslash directly before 2-, 3-, 4-byte characters and combining marks, at the end of the line, doubled, before TAB, multi-byte characters next to every structural character, in every comment position / field; every string of length <= 3 over (backslash, n, e-acute, euro, U+10400, TAB, c) as comment cell) and descriptor strings (random, runs of each structural character of length 255..300000 inside the frames of field / method / object / array descriptors, 34 short valid and invalid descriptors with a surrogate / NUL / 6-byte character at every position); accepted classes go through write_class and the written bytes are read again. Whole-class correspondence: class files of at most 4096 bytes (all the javac corpus classes of that size, every class of the case-* streams, even samples of the field-mutation / truncation / random-edit / hostile-string / mutf8 / targeted / exact-count streams under a byte budget of 2.6 MB per quick run, 12 MB per thorough run) are cases CClassV for the model of the WHOLE class reader (coq/C16/ModelCls*.v): exact outcome class ok / err / panic of duke::read_class, and whether read_class_multi accepted the same bytes with the () visitor, a visitor without interests that declines every member, one that declines the code of every method, one with interest in Record only and none in fields / methods, and one that declines the class (the model runs under the corresponding visitor description); an ACCEPTED class is a case CClassT instead: it is read once more in the harness and what the returned ClassFile shows of the file's numbers (decoded class / field / method access, InnerClasses, Module and MethodParameters flags under the mask of their type, number of interfaces, max_stack, max_locals, exception table length, the line numbers, numbers of Exceptions / requires / exports / opens entries) must equal the tree skeleton of the instrumented reader model (coq/C16/ModelClsTree.v), about which the range theorems C16_reader_* are proved. Whole-file correspondence: every text input of at most 4096 bytes (all targeted shapes and fixtures, the other streams sampled down to 5000 per quick run) is also a case CText for the model of the WHOLE parser (tiny v2 with 1 / 2 / 3 namespaces, tiny diff, Enigma, nests; coq/C16/ModelText.v, UTF-8 bytes), compared by exact outcome class ok / err / panic; element-value nesting is compared at 18 depths x 8 patterns against the three-function model whose increments are read from the source. Non-trivial: the parser accepted the input, or the input is a structured mutation of a valid file (reaches past the header). Distinct by input bytes.", LIMITS.as_kib / 1024, LIMITS.stack_kib / 1024, LIMITS.cpu_s, INPUT_CPU_LIMIT_MS / 1000, first_hostile, bases.len() - first_hostile);
 
 	// group failures so that the report shows each distinct failure once, smallest input first
 	struct Fail { what: String, replay: String, len: usize, count: u64, known: Option<&'static str> }
@@ -675,7 +706,20 @@ pub fn run(ctx: &Ctx) -> anyhow::Result<Report> {
 				else {
 					// what the five other visitors answered (order of `others` in run_one_)
 					let v = |k: u32| gbool(aux >> (VISITOR_BIT0 + k) & 1 == 1);
-					light_cases.push((stream, format!("CClassV {gb} {tok} {} {} {} {} {}", v(0), v(1), v(2), v(3), v(4))));
+					// an accepted class (the child read it within the limits) is read once more here: the numbers in the
+					// tree are compared with the instrumented reader model (CClassT)
+					let tree = if tok == "ROk" { guarded(|| duke::read_class(&mut Cursor::new(&bytes[..]))).ok().and_then(|x| x.ok()) } else { None };
+					match tree.as_ref().map(class_skeleton) {
+						Some(Some(sk)) => {
+							light_cases.push((stream, format!("CClassT {gb} {} {} {} {} {} {} {sk}", v(0), v(1), v(2), v(3), v(4), flag_masks())));
+							r.count("class-case:tree-skeleton");
+						}
+						Some(None) => {
+							r.violation("duke::read_class returned a method with Code but without max_stack / max_locals: write_class cannot write it".into(), format!("class file bytes {gb}"));
+							light_cases.push((stream, format!("CClassV {gb} {tok} {} {} {} {} {}", v(0), v(1), v(2), v(3), v(4))));
+						}
+						None => light_cases.push((stream, format!("CClassV {gb} {tok} {} {} {} {} {}", v(0), v(1), v(2), v(3), v(4)))),
+					}
 				}
 				r.count(&format!("class-case:{tok}"));
 				r.count_n("class-case-bytes", bytes.len() as u64);
